@@ -97,3 +97,13 @@ class Timer(object):
 
     def wall(self):
         return time.time() - self.t0
+
+
+def pick(seq, seed, k=3):
+    """k actual cases of this run, chosen by VERIF_SEED (evidence `samples`)"""
+    import random
+    seq = list(seq)
+    if not seq:
+        return []
+    r = random.Random(seed)
+    return [seq[i] for i in sorted(r.sample(range(len(seq)), min(k, len(seq))))]
